@@ -963,13 +963,23 @@ func (rule *RuleExpression) checkMatrix(m *Matrix) *ObjectType {
 		return NewEmptyObjectType()
 	}
 
+	// Set to true when some element of "include" is given by an expression whose keys and values are
+	// not known statically. Such an element may add any key and may give any value to the keys which
+	// are defined by rows or other elements.
+	unknown := false
+
 	for _, combi := range m.Include.Combinations {
 		if combi.Expression != nil {
 			ty := rule.checkOneExpression(combi.Expression, "matrix combination at element of include section", "jobs.<job_id>.strategy")
 			if ty == nil {
 				// The element is given by an expression, so it may add any key even when the expression
 				// itself was reported. Same as "matrix:", "include:" and rows given by expressions.
-				o.Loose()
+				unknown = true
+				continue
+			}
+			if t, ok := ty.(*ObjectType); !ok || t.IsLoose() {
+				// e.g. ${{ fromJSON(...) }} or ${{ github.event }}
+				unknown = true
 				continue
 			}
 			if merged, ok := o.Merge(ty).(*ObjectType); ok {
@@ -995,6 +1005,11 @@ func (rule *RuleExpression) checkMatrix(m *Matrix) *ObjectType {
 			}
 			o.Props[n] = ty
 		}
+	}
+
+	if unknown {
+		// Nothing is known about the combinations statically. Same as "include: ${{ ... }}"
+		return NewEmptyObjectType()
 	}
 
 	return o
